@@ -47,6 +47,8 @@ type Shape struct {
 	// MK is the key type of a map: "" = string, or "int", "int64", "uint8" (legal in request / response types; both JSON
 	// encoders write such maps as objects with quoted keys).
 	MK string `json:"mk,omitempty"`
+	// Dup (slice or map of pointers with N == 2): both elements are the SAME pointer, so one object is reachable twice.
+	Dup bool `json:"dup,omitempty"`
 	// Nil makes the pointer / interface value nil.
 	Nil bool `json:"nil,omitempty"`
 	// R describes the value of a "rec" node.
@@ -63,6 +65,9 @@ type Field struct {
 	// types are written; the leaves below stay secret, whatever the tag of the container says about the container.
 	I bool  `json:"i,omitempty"`
 	T Shape `json:"t"`
+	// V (with S): which spelling of the secure tag the field carries (index into secureSpellings; 0 = `coerce:"secure"`).
+	// A spelling other than 0 is used only if this tree's own registry recognises it as tagging the field (tagwitness).
+	V int `json:"v,omitempty"`
 }
 
 func isLeafKind(k string) bool { return k == kString || k == kInt || k == kBytes || k == kBool }
@@ -137,6 +142,9 @@ func genShape(t *rapid.T, depth, allow int, inIface bool) (Shape, int) {
 		}
 		s.E = &e
 		s.N = rapid.SampledFrom([]int{1, 1, 1, 1, 2, 2, 2, 0}).Draw(t, "n")
+		if s.N == 2 && e.K == kPtr && !e.Nil && rapid.IntRange(0, 2).Draw(t, "duppointer") == 2 {
+			s.Dup = true
+		}
 		if k == kMap && rapid.IntRange(0, 3).Draw(t, "mapkey") == 3 {
 			s.MK = rapid.SampledFrom([]string{"int", "int64", "uint8"}).Draw(t, "mapkeykind")
 		}
@@ -184,7 +192,11 @@ func genStruct(t *rapid.T, depth, allow, maxFields int) (Shape, int) {
 			}
 			ign = rapid.IntRange(0, 9).Draw(t, "ignore") < ignP
 		}
-		s.F = append(s.F, Field{S: sec, I: ign, T: ft})
+		f := Field{S: sec, I: ign, T: ft}
+		if sec && rapid.IntRange(0, 7).Draw(t, "tagspelling") == 7 {
+			f.V = rapid.IntRange(1, len(secureSpellings)-1).Draw(t, "tagspellingkind")
+		}
+		s.F = append(s.F, f)
 	}
 	return s, used
 }
@@ -215,6 +227,9 @@ func validShape(s *Shape, depth int, inIface bool, leaves *int) error {
 			if s.F[i].S && s.F[i].I {
 				return fmt.Errorf("field tagged secure and ignore")
 			}
+			if s.F[i].V < 0 || s.F[i].V >= len(secureSpellings) || (s.F[i].V != 0 && !s.F[i].S) {
+				return fmt.Errorf("bad tag spelling %d", s.F[i].V)
+			}
 			if err := validShape(&s.F[i].T, depth+1, false, leaves); err != nil {
 				return err
 			}
@@ -230,6 +245,9 @@ func validShape(s *Shape, depth int, inIface bool, leaves *int) error {
 		}
 		if _, ok := mapKeyTypes[s.MK]; !ok || (s.MK != "" && s.K != kMap) {
 			return fmt.Errorf("bad map key kind %q", s.MK)
+		}
+		if s.Dup && (s.N != 2 || s.E.K != kPtr || s.E.Nil) {
+			return fmt.Errorf("dup on something that is not a pair of non-nil pointers")
 		}
 		return validShape(s.E, depth+1, false, leaves)
 	case kIface:
@@ -264,6 +282,35 @@ var mapKeyTypes = map[string]reflect.Type{
 	"": reflect.TypeOf(""), "int": reflect.TypeOf(int(0)), "int64": reflect.TypeOf(int64(0)), "uint8": reflect.TypeOf(uint8(0)),
 }
 
+// hasDup reports whether the shape contains a slice or map whose two elements are one shared pointer.
+func hasDup(s *Shape) bool {
+	if s == nil {
+		return false
+	}
+	if s.Dup {
+		return true
+	}
+	for i := range s.F {
+		if hasDup(&s.F[i].T) {
+			return true
+		}
+	}
+	return hasDup(s.E)
+}
+
+// hasSpelledTag reports whether a secure tag of the shape uses a spelling other than the plain one.
+func hasSpelledTag(s *Shape) bool {
+	if s == nil {
+		return false
+	}
+	for i := range s.F {
+		if (s.F[i].S && secureSpelling(s.F[i].V) != "secure") || hasSpelledTag(&s.F[i].T) {
+			return true
+		}
+	}
+	return hasSpelledTag(s.E)
+}
+
 // hasNonStringMap reports whether the shape contains a map whose key is not a string.
 func hasNonStringMap(s *Shape) bool {
 	if s == nil {
@@ -287,7 +334,7 @@ func typeOf(s *Shape) reflect.Type {
 		for i := range s.F {
 			fs[i] = reflect.StructField{Name: "F" + strconv.Itoa(i), Type: typeOf(&s.F[i].T)}
 			if s.F[i].S {
-				fs[i].Tag = `coerce:"secure"`
+				fs[i].Tag = reflect.StructTag(`coerce:"` + secureSpelling(s.F[i].V) + `"`)
 			} else if s.F[i].I {
 				fs[i].Tag = `coerce:"ignore"`
 			}
@@ -469,16 +516,30 @@ func (b *valueBuilder) value(s *Shape, p pathInfo) reflect.Value {
 		return ptr
 	case kSlice:
 		v := reflect.MakeSlice(t, s.N, s.N)
+		if s.Dup && s.N == 2 {
+			shared := b.value(s.E, p.push(s.E.K))
+			v.Index(0).Set(shared)
+			v.Index(1).Set(shared)
+			return v
+		}
 		for i := 0; i < s.N; i++ {
 			v.Index(i).Set(b.value(s.E, p.push(s.E.K)))
 		}
 		return v
 	case kMap:
 		v := reflect.MakeMapWithSize(t, s.N)
+		var shared reflect.Value
+		if s.Dup && s.N == 2 {
+			shared = b.value(s.E, p.push(s.E.K))
+		}
 		for i := 0; i < s.N; i++ {
 			key := reflect.ValueOf("k" + strconv.Itoa(i))
 			if s.MK != "" {
 				key = reflect.ValueOf(i + 1).Convert(t.Key())
+			}
+			if shared.IsValid() {
+				v.SetMapIndex(key, shared)
+				continue
 			}
 			v.SetMapIndex(key, b.value(s.E, p.push(s.E.K)))
 		}
